@@ -4,6 +4,7 @@
      wr      <umask> <path> <dir> <inos>
      image   <umask> <in1,in2,…> <out> <dir> <inos>   image mode of grid / n-up / booklet (alias check over all inputs)
      import  <umask> <in1,in2,…> <out> <dir> <inos>   import images
+     incr    <umask> <in> <out|-> <dir> <inos>        AddAnnotationsFile(..., incr = true): writes 02 (the output / the increment)
      aliases <in> <out> <dir> <inos>              -> true | false
    dir  = "<entry>:f:<inode>;<entry>:l:<target entry>;…"     inos = "<inode>:<mode>:<hex bytes>;…"
    The body of api is  read, write 02, read;  wr writes 02.
@@ -71,6 +72,9 @@ let dispatch fn args = match fn, args with
   | "import", [um; ins; out; d; i] ->
     let s0 = mk_state (dir_of d) (inos_of i) in
     render s0 None (run_import_images_i (n_of_hex um) (List.map sp_exn (split ',' ins)) (sp_exn out) [BWrite [n_of_int 2]] s0)
+  | "incr", [um; x; out; d; i] ->
+    let s0 = mk_state (dir_of d) (inos_of i) in
+    render s0 None (run_incr_api_i (n_of_hex um) (sp_exn x) (sp_of out) [BWrite [n_of_int 2]] s0)
   | "aliases", [a; b; d; i] ->
     str_of_bool (run_aliases (sp_exn a) (sp_exn b) (mk_state (dir_of d) (inos_of i)))
   | _ -> failwith ("unknown function " ^ fn)
